@@ -287,6 +287,10 @@ def crash_oracle(it):
     else:
         if not words or words[-1] != "Disconnected":
             return "no surviving sender, yet the receiver was not told 'disconnected' (log ends %s)" % rec["log"][-2:]
+    for sent, got in rec.get("own_state", []):
+        if not sent or not got:
+            return ("the program's own handle on a channel whose sender had also been attached to the interrupted message stopped working after that message was discarded "
+                    "(send ok: %s, delivered to the channel's receiver: %s)" % (sent, got))
     if any(a != "Disconnected" for a in rec["att_state"]):
         return "attachments of the interrupted message were not released: %s" % rec["att_state"]
     if rec.get("fds_after") != rec.get("fds_before") or rec.get("maps_after") != rec.get("maps_before"):
@@ -373,7 +377,9 @@ def crash_model_term(it):
 
 
 def run_crash(binp, S, cases):
-    lines = ["id=%d len=%d k=%d survivor=%d natt=%d nreg=%d observe=%s" % (c["id"], c["len"], c["k"], c["survivor"], c["natt"], c.get("nreg", 0), c["observe"]) for c in cases]
+    # own=1 on every other case with attachments: the program keeps a handle of its own on each attached channel
+    lines = ["id=%d len=%d k=%d survivor=%d natt=%d nreg=%d observe=%s%s" % (c["id"], c["len"], c["k"], c["survivor"], c["natt"], c.get("nreg", 0), c["observe"],
+                                                                           " own=1" if (c["natt"] and c["id"] % 2 == 0) else "") for c in cases]
     recs, trace, rc, err = C.run_harness(binp, "crash", lines, env_extra={"VSHIM_SNDBUF": S}, timeout=900)
     by = {r["id"]: r for r in recs if r.get("kind") == "crash"}
     out = []
